@@ -391,4 +391,59 @@ MC_INIT
         TR.wipe();
         end_case();
     });
+
+    // (5) atoi / atol at the IN-RANGE limits (out-of-range texts are undefined by ISO and stay excluded): INT_MIN, INT_MIN+1,
+    //     INT_MAX-1, INT_MAX for both, LONG_MIN, LONG_MIN+1, LONG_MAX-1, LONG_MAX for atol; leading white space, explicit '+',
+    //     leading zeros, trailing junk; reference: glibc's atoi / atol on the same text. LONG_MIN is the one in-range text
+    //     whose magnitude is not representable as a positive long.
+    mc::add_check("ato_in_range_boundaries", [] {
+        begin_case();
+        static const long VAL[11] = {INT_MIN, (long)INT_MIN + 1, -1, 0, 1, INT_MAX - 1, INT_MAX, LONG_MIN, LONG_MIN + 1, LONG_MAX - 1, LONG_MAX};
+        static const char *VN[11] = {"INT_MIN", "INT_MIN+1", "-1", "0", "1", "INT_MAX-1", "INT_MAX", "LONG_MIN", "LONG_MIN+1", "LONG_MAX-1", "LONG_MAX"};
+        static const char *TL[8] = {"", " ", "x", ".5", "-", "+1", "L", "\xff"};
+        int c0 = mc::choose(11 * 5 * 4);
+        int vi = c0 / 20, wi = (c0 / 4) % 5, zi = c0 % 4;
+        long v = VAL[vi];
+        std::string ws = wi == 0 ? "" : wi == 1 ? " " : wi == 2 ? "\t" : wi == 3 ? " \t\n\v\f\r " : std::string(300, ' ');
+        std::string zs = zi == 0 ? "" : zi == 1 ? "0" : zi == 2 ? "000" : std::string(300, '0');
+        std::string mag = render(v < 0 ? (unsigned __int128)(-(__int128)v) : (unsigned __int128)v, 10, false);
+        mc::describe("atoi/atol of %s with %zu leading white-space characters, %zu leading zeros, sign '-' or ''/'+', 8 tails, before/after guard", VN[vi], ws.size(), zs.size());
+        mc::nontrivial();
+        W = 1024;
+        bool fits_int = v >= INT_MIN && v <= INT_MAX;
+        const char *cls = (v == LONG_MIN || v == INT_MIN) ? "most_negative" : (vi == 2 || vi == 3 || vi == 4) ? "small" : "at_limit";
+        for (PL = AFTER; PL <= BEFORE; PL++)
+            for (int sg = 0; sg < (v < 0 ? 1 : 2); sg++)
+                for (const char *tl : TL)
+                {
+                    std::string t = ws + (v < 0 ? "-" : sg ? "+" : "") + zs + mag + tl;
+                    const char *pi = (const char *)TI.put(t.c_str(), t.size() + 1, PL), *pr = (const char *)TR.put(t.c_str(), t.size() + 1, PL);
+                    const uint8_t *tt = (const uint8_t *)t.data();
+                    long wl = atol(pr), gl = 0;
+                    int gi = 0;
+                    g_calls++;
+                    if (wl != v)
+                        mc::harness_error("reference atol disagrees with the rendered value");
+                    if (!mc::guarded([&] { gl = igc_atol(pi); }))
+                        sigv(-1, PL == AFTER ? "read_past_terminator" : "read_before_start", cls, tt, t.size(), 10, "touched the inaccessible page next to the text");
+                    else if (gl != wl)
+                        sigv(-1, "value", cls, tt, t.size(), 10, "returned %ld, ISO/glibc: %ld (%s)", gl, wl, VN[vi]);
+                    if (!fits_int)
+                    {
+                        g_excluded++;
+                        continue;
+                    }
+                    int wi2 = atoi(pr);
+                    g_calls++;
+                    if (!mc::guarded([&] { gi = igc_atoi(pi); }))
+                        sigv(-2, PL == AFTER ? "read_past_terminator" : "read_before_start", cls, tt, t.size(), 10, "touched the inaccessible page next to the text");
+                    else if (gi != wi2)
+                        sigv(-2, "value", cls, tt, t.size(), 10, "returned %d, ISO/glibc: %d (%s)", gi, wi2, VN[vi]);
+                    g_seen |= 1u << (v < 0 ? 4 : 0);
+                }
+        W = W_SMALL;
+        TI.wipe();
+        TR.wipe();
+        end_case();
+    });
 }
